@@ -467,6 +467,61 @@ class C10(Check):
                             cy = chain(y) if isinstance(y, ast.Attribute) else None
                             if cy and len(cy) == 2 and cy[0] == "_wn" and cy[1] not in ("get_link", "get_node"):
                                 iso_src[c[0]].add(cy[1])
+        # network-owned state (private attributes of wn / elements / conditions) that the loop and the functions it calls in
+        # wntr/sim/hydraulics.py, the conditions' evaluate() methods and the status/setting/leak_status setters write or read
+        def base_name(node):
+            while isinstance(node, (ast.Attribute, ast.Subscript)):
+                node = node.value
+            return node.id if isinstance(node, ast.Name) else None
+
+        def scan(nodes, skip_self):
+            w, r = set(), set()
+            for n in nodes:
+                for x in ast.walk(n):
+                    if isinstance(x, ast.Attribute) and x.attr.startswith("_") and not x.attr.startswith("__"):
+                        if skip_self and isinstance(x.value, ast.Name) and x.value.id == "self":
+                            continue
+                        if base_name(x) in ("logger", "np", "wntr", "math", "logging", "scipy"):
+                            continue
+                        (w if isinstance(x.ctx, ast.Store) else r).add(x.attr)
+            return w, r
+
+        try:
+            hyd = ast.parse(open(os.path.join(vlib.REPO, "wntr", "sim", "hydraulics.py")).read())
+            ctl = ast.parse(open(os.path.join(vlib.REPO, "wntr", "network", "controls.py")).read())
+            elm = ast.parse(open(os.path.join(vlib.REPO, "wntr", "network", "elements.py")).read())
+            bas = ast.parse(open(os.path.join(vlib.REPO, "wntr", "network", "base.py")).read())
+        except (SyntaxError, OSError) as e:
+            raise vlib.BrokenTie("cannot parse hydraulics.py / controls.py / elements.py / base.py: %r" % (e,))
+        hfun = {n.name: n for n in hyd.body if isinstance(n, ast.FunctionDef)}
+        hcalled = sorted({ast.unparse(x.func).split(".")[-1] for n in loop_nodes for x in ast.walk(n)
+                          if isinstance(x, ast.Call) and ast.unparse(x.func).startswith("wntr.sim.hydraulics.")})
+        missing = [f for f in hcalled if f not in hfun]
+        if missing:
+            raise vlib.BrokenTie("run_sim calls wntr.sim.hydraulics.%s which is not a top-level function" % missing[0])
+        evals = [f for c in ctl.body if isinstance(c, ast.ClassDef) and c.name.endswith("Condition")
+                 for f in c.body if isinstance(f, ast.FunctionDef) and f.name == "evaluate"]
+        setters = [f for mod in (elm, bas) for c in mod.body if isinstance(c, ast.ClassDef) for f in c.body
+                   if isinstance(f, ast.FunctionDef) and f.name in ("status", "setting", "leak_status", "_internal_status", "_user_status", "initial_status")
+                   and any(ast.unparse(d).endswith(".setter") for d in f.decorator_list)]
+        w1, r1 = scan(loop_nodes, True)
+        w2, r2 = scan([hfun[f] for f in hcalled if not f.startswith("update_model_for")], False)
+        w3, r3 = scan(evals, False)
+        w4, r4 = scan(setters, False)
+        # what control actions write: the string constants ControlAction assigns to `_private_attribute` and the attribute
+        # names the simulator passes to `_InternalControlAction`
+        w5 = set()
+        for x in ast.walk(ctl):
+            if isinstance(x, ast.Assign) and any(ast.unparse(t) == "self._private_attribute" for t in x.targets) \
+                    and isinstance(x.value, ast.Constant) and isinstance(x.value.value, str):
+                w5.add(x.value.value)
+        for x in ast.walk(cls):
+            if isinstance(x, ast.Call) and ast.unparse(x.func) == "_InternalControlAction" and len(x.args) >= 2 \
+                    and isinstance(x.args[1], ast.Constant) and isinstance(x.args[1].value, str):
+                w5.add(x.args[1].value)
+        net_written = w1 | w2 | w3 | w4 | w5 | {"sim_time"}
+        net_read = r1 | r2 | r3 | r4
+
         init_only = set()
         for x in ast.walk(methods["__init__"]):
             for e in targets(x):
@@ -485,6 +540,9 @@ class C10(Check):
                 + lst("assignedInPrologue", assigned, "attributes assigned by run_sim BEFORE the loop or by a method called from there (not `__init__`)")
                 + lst("prologueReadsWn", reads_wn, "… whose assigned expression (or assigning method) reads `self._wn`")
                 + lst("initOnly", init_only, "attributes assigned in `__init__` only")
+                + lst("hydraulicsCalledInLoop", hcalled, "functions of wntr/sim/hydraulics.py the loop calls")
+                + lst("networkStateWritten", net_written, "private attributes of the network (wn, elements, conditions) WRITTEN by the loop, those functions (model updaters excluded), the conditions' evaluate() and the status / setting / leak_status setters (+ the clock `sim_time`)")
+                + lst("networkStateRead", net_read, "private attributes of the network READ by that code")
                 + lst("prevIsoJunctionSources", iso_src["_prev_isolated_junctions"], "collections of `self._wn` the prologue iterates over to rebuild `_prev_isolated_junctions`")
                 + lst("prevIsoLinkSources", iso_src["_prev_isolated_links"], "… to rebuild `_prev_isolated_links`")
                 + "\nend Wntr.Gen.RestartFields\n")
